@@ -16,7 +16,7 @@ condition holds (merged with ite, composed along sequences):
 
     h   {(cls, attr): bool}  single-valued attribute assigned in the current
                              object frame
-    b   bool                 some frame assigned a single-valued attribute twice
+    b   {(cls, attr): bool}  some frame assigned that tracked attribute twice
     fp  int                  fingerprint: sum of BASE**index over objects
                              created per rule and values assigned per attribute
 """
@@ -35,11 +35,11 @@ _EMPTY = {}
 class Out:
     __slots__ = ('c', 'h', 'b', 'fp')
 
-    def __init__(self, c, h=_EMPTY, b=False, fp=0):
+    def __init__(self, c, h=_EMPTY, b=_EMPTY, fp=0):
         self.c, self.h, self.b, self.fp = c, h, b, fp
 
     def plain(self):
-        return not self.h and self.b is False and isinstance(self.fp, int) and self.fp == 0
+        return not self.h and not self.b and isinstance(self.fp, int) and self.fp == 0
 
 
 def strip(o):
@@ -52,20 +52,36 @@ def seq(a, b):
     c = And(a.c, b.c)
     if a.plain() and b.plain():
         return Out(c)
+    if a.b or b.b:
+        bb = dict(a.b)
+        for k, v in b.b.items():
+            bb[k] = Or(bb[k], v) if k in bb else v
+    else:
+        bb = _EMPTY
     if a.h and b.h:
         h = dict(a.h)
-        dup = [a.b, b.b]
         for k, v in b.h.items():
             if k in h:
-                dup.append(And(h[k], v))
+                both = And(h[k], v)
+                if both is not False:
+                    if bb is _EMPTY:
+                        bb = {}
+                    bb[k] = Or(bb.get(k, False), both)
                 h[k] = Or(h[k], v)
             else:
                 h[k] = v
-        bb = Or(*dup)
     else:
         h = a.h or b.h
-        bb = Or(a.b, b.b)
     return Out(c, h, bb, Add(a.fp, b.fp))
+
+
+def _merge_dict(ca, da, db):
+    if not da and not db:
+        return _EMPTY
+    out = {}
+    for k in set(da) | set(db):
+        out[k] = Ite(ca, da.get(k, False), db.get(k, False))
+    return out
 
 
 def merge(a, b):
@@ -73,13 +89,7 @@ def merge(a, b):
     c = Or(a.c, b.c)
     if a.plain() and b.plain():
         return Out(c)
-    if a.h or b.h:
-        h = {}
-        for k in set(a.h) | set(b.h):
-            h[k] = Ite(a.c, a.h.get(k, False), b.h.get(k, False))
-    else:
-        h = _EMPTY
-    return Out(c, h, Ite(a.c, a.b, b.b), Ite(a.c, a.fp, b.fp))
+    return Out(c, _merge_dict(a.c, a.h, b.h), _merge_dict(a.c, a.b, b.b), Ite(a.c, a.fp, b.fp))
 
 
 def with_c(o, c):
@@ -299,8 +309,9 @@ class SymPeg:
         h, b, fp = o.h, o.b, o.fp
         if tag in self.single and rn == '__asgn_plain':
             h = dict(h)
-            if tag in h:
-                b = Or(b, h[tag])
+            if tag in h and h[tag] is not False:
+                b = dict(b)
+                b[tag] = Or(b.get(tag, False), h[tag])
             h[tag] = True
         if self.fpindex is not None and rn in ('__asgn_plain', '__asgn_optional'):
             fp = Add(fp, self.fpindex.w(('asg', cname, e._attr_name)))
@@ -512,11 +523,14 @@ class SymPeg:
         return self.succ(self.outcomes(root))
 
     def accept_attrs(self, root):
-        """(acc, dup, fp): acceptance condition, duplicate-assignment
-        condition (implies acc) and fingerprint term (meaningful under acc)"""
+        """(acc, dup, fp): acceptance condition, {tag: duplicate-assignment
+        condition (implies acc)} and fingerprint term (meaningful under acc)"""
         res = self.outcomes(root)
         acc = self.succ(res)
-        dup = Or(*[And(o.c, o.b) for o in res.values()]) if res else False
+        dup = {}
+        for o in res.values():
+            for k, v in o.b.items():
+                dup[k] = Or(dup.get(k, False), And(o.c, v))
         fp = 0
         for o in res.values():
             fp = Ite(o.c, o.fp, fp)
